@@ -60,11 +60,13 @@ type Env struct {
 	diskWritesOutsideSync int
 	groups map[Loc]*egState
 	groupWrites map[Loc][]map[Loc]bool
+	timeTexts []*Term
+	served map[string]string
 	nrand  int
 }
 
 func NewEnv(m *Machine) *Env {
-	return &Env{m: m, files: map[string]*FsFile{}, pageSize: 4096, faults: map[string]*Term{}, faultOn: map[string]bool{}, groups: map[Loc]*egState{}, groupWrites: map[Loc][]map[Loc]bool{}}
+	return &Env{m: m, files: map[string]*FsFile{}, pageSize: 4096, faults: map[string]*Term{}, faultOn: map[string]bool{}, groups: map[Loc]*egState{}, groupWrites: map[Loc][]map[Loc]bool{}, served: map[string]string{}}
 }
 
 func (e *Env) event(s string) { e.events = append(e.events, s) }
@@ -566,6 +568,9 @@ func (m *Machine) envIntrinsic(name string, fn *ssa.Function, args []Value) (Val
 		}
 		return nilErr, true
 	}
+	if v, ok := m.envIntrinsic3(name, fn, args); ok {
+		return v, true
+	}
 	return m.envIntrinsic2(name, fn, args)
 }
 
@@ -674,6 +679,9 @@ func (m *Machine) invokeOpaque(iv IfaceV, method *types.Func, args []Value) (Val
 			return m.ctx.Bool(o.dir), true
 		}
 		m.unsupported("FileInfo." + method.Name())
+	}
+	if v, ok := m.invokeOpaque3(iv, method, args); ok {
+		return v, true
 	}
 	return m.invokeOpaque2(iv, method, args)
 }
